@@ -24,7 +24,7 @@ echo "$id/$x: tests pass/fail = $res"
 (cd $d/base && go build -o $d/calc_base ./cmd/calc); (cd $d/mut && go build -o $d/calc_mut ./cmd/calc)
 for demo in $src/$x.demo*.calc; do
   [ -f "$demo" ] || continue
-  a=$(cd $src && timeout 60 $d/calc_base $demo 2>&1 | sed -E 's/0x[0-9a-f]+/PTR/g' | md5sum); b=$(cd $src && timeout 60 $d/calc_mut $demo 2>&1 | sed -E 's/0x[0-9a-f]+/PTR/g' | md5sum)
+  a=$(cd $src && (ulimit -v 6000000; timeout 60 $d/calc_base $demo 2>&1) | sed -E 's/0x[0-9a-f]+/PTR/g' | md5sum); b=$(cd $src && (ulimit -v 6000000; timeout 60 $d/calc_mut $demo 2>&1) | sed -E 's/0x[0-9a-f]+/PTR/g' | md5sum)
   if [ "$a" != "$b" ]; then echo "$id/$x: demo $(basename $demo): output DIFFERS between unchanged and changed tree (ok)"; else echo "$id/$x: demo $(basename $demo): SAME output"; fi
 done
 for t in $src/$x.demo*.go $src/$x.demo_test.go; do
